@@ -11,7 +11,7 @@
    in arrival order. *)
 From Coq Require Import List NArith.
 From Minimq Require Import Bytes Varint Utf8 Props Ser De Reader Arena Core Show Machine Run.
-From Minimq Require Import CodecProofs Lts Inbound InboundReach WireInv Drain.
+From Minimq Require Import CodecProofs Lts Inbound InboundReach WireInv Drain Framing Liveness.
 Import ListNotations.
 Open Scope N_scope.
 
@@ -133,6 +133,20 @@ Theorem C04_pubrel_unknown_drained : forall s id rc s' hr, Drained s -> AckFits 
   s_srv s' = s_srv s /\ hr = HOk false /\ ack_appended s s' (CPubComp id 146).
 Proof. exact pubrel_unknown_drained. Qed.
 
+(* delivery, end to end for QoS 0: an inbound QoS 0 PUBLISH that has arrived on a behaving transport (nothing left to
+   write, no PINGREQ due or outstanding) is returned by ONE poll(), exactly as decoded *)
+Theorem C04_poll_delivers_qos0 : forall w h rl body t topic r dp props payload,
+  varint_write (lenN body) = Some rl ->
+  let pkt := h :: rl ++ body in
+  lenN pkt <= rcap (rd w) -> lenN pkt <= 29000 ->
+  w_live w = true -> rdata (rd w) = [] -> rplen (rd w) = None ->
+  next_step (s_ob (w_sess w)) = None ->
+  (forall dd, rt_next_ping (s_rt (w_sess w)) = Some dd -> w_now w < dd) -> rt_ping_timeout (s_rt (w_sess w)) = None ->
+  w_script w = [] -> w_inq w = [(t, pkt)] -> t <= w_now w ->
+  from_buffer pkt = Some (RPublish topic None Q0 r dp props payload) ->
+  exists w', op_poll FUEL w = (w', ODone (Some (RPublish topic None Q0 r dp props payload))) /\ w_live w' = true.
+Proof. exact poll_delivers_qos0. Qed.
+
 Print Assumptions C04_publish_decoded_as_sent.
 Print Assumptions C04_properties_decoded_as_sent.
 Print Assumptions C04_qos0_delivered.
@@ -155,3 +169,4 @@ Print Assumptions C04_qos2_first_arrival_drained.
 Print Assumptions C04_qos2_duplicate_drained.
 Print Assumptions C04_pubrel_pending_drained.
 Print Assumptions C04_pubrel_unknown_drained.
+Print Assumptions C04_poll_delivers_qos0.
